@@ -18,6 +18,8 @@
 From Coq Require Import ZArith List Bool Relations.
 From CSS Require Import Equiv.Model Equiv.Ref Equiv.UF Equiv.Inv Equiv.Hist Equiv.Path Equiv.Cov
   Equiv.Complete.
+From CSS Require Gen.EquivHeaviest.
+From CSS Require Import Equiv.GenBridge.
 Import ListNotations.
 Open Scope Z_scope.
 
@@ -670,6 +672,14 @@ Proof.
   - revert Hk. eapply a6_not_same; vm_compute; reflexivity.
 Qed.
 
+(* ================= the union-by-weight choice is the source's (translator) =================
+   The root that survives a union is the source's expression
+   `max(((self.weights[r], r) for r in roots))[1]` of _set_equivalent
+   (Gen/EquivHeaviest.v, re-translated from equiv_db.py on every run). *)
+Theorem C06_heaviest_is_source : forall s ra rb,
+  heaviest s ra rb = EquivHeaviest.equiv_heaviest (weights s) ra rb.
+Proof. exact heaviest_is_source. Qed.
+
 Print Assumptions C06_equivalent_is_same.
 Print Assumptions C06_sound.
 Print Assumptions C06_edges_recorded.
@@ -689,3 +699,4 @@ Print Assumptions C06_classes_are_sccs.
 Print Assumptions C06_classes_are_sccs_after_queries.
 Print Assumptions C06_complete_partial.
 Print Assumptions C06_complete_partial_edges_kept.
+Print Assumptions C06_heaviest_is_source.
